@@ -271,6 +271,14 @@ def laggingCas (obs : Json) : List String :=
   let l2 := l1 ++ kids l1
   l2 ++ kids l2
 
+/-- Several ASPA objects for one customer (the AS held by several CAs) count as the union of their
+provider sets (that is how relying parties combine them). -/
+def mergeAspas (l : List AspaDefn) : List (Nat × List Nat) :=
+  let custs := sortNats (l.foldl (fun acc d => if acc.contains d.customer then acc else acc ++ [d.customer]) [])
+  custs.map fun c =>
+    (c, sortNats ((l.filter (·.customer == c)).foldl
+      (fun acc d => d.providers.foldl (fun a p => if a.contains p then a else a ++ [p]) acc) []))
+
 def rpPreds (obs : Json) (objs : List (String × List (Nat × ClassO))) (synced : String → Bool)
     (ignoredRevokes ignoredMissing : List String) (aged : String → Nat → Bool) : List String :=
   let rp := jget obs "rp"
@@ -311,7 +319,7 @@ def rpPreds (obs : Json) (objs : List (String × List (Nat × ClassO))) (synced 
   (if !lagging.isEmpty then [] else
   mustBeAccepted obs objs ++
   (if sortP (dedupP (rpVrps rp)) == sortP (dedupP vr) then [] else ["RpPayloadsExact"]) ++
-  (if sortBy defLt (dd gotA) == sortBy defLt (dd asp) then [] else ["RpAspasExact"]) ++
+  (if mergeAspas gotA == mergeAspas asp then [] else ["RpAspasExact"]) ++
   (if sortBy kLt (dd gotK) == sortBy kLt (dd rk) then [] else ["RpRouterKeysExact"]))
 
 end KM.Drv.SysObj
